@@ -78,19 +78,12 @@ def mergingFunctions : List (String × List String) :=
     counterexample theorem in `UnytProofs/C01.lean` -/
 def uncheckedRows : List (String × List String) :=
   [ ("copyto", ["dst", "src"]),
-    ("interp", ["fp", "left"]),
-    ("interp", ["fp", "right"]),
     ("histogram", ["a", "bins"]),
     ("histogram2d", ["x", "y", "bins"]),
     ("histogramdd", ["sample", "bins"]),
     ("histogram_bin_edges", ["a", "range"]),
-    ("histogram_bin_edges", ["a", "bins"]),
-    ("diff", ["a", "prepend"]),
-    ("diff", ["a", "append"]),
-    ("ediff1d", ["ary", "to_begin"]),
-    ("ediff1d", ["ary", "to_end"]),
-    ("pad", ["array", "constant_values"]),
-    ("pad", ["array", "end_values"]) ]
+    ("histogram_bin_edges", ["a", "bins"]) ]
+
 
 /-- ufuncs of `commensurabilityRequiring` that unyt's table maps to an unchecked rule on the
     unchanged tree (finding `table|divmod`) -/
